@@ -14,7 +14,7 @@ import random
 
 from vf import tlc, tlaval
 
-TYPES = ['Any', 'A', 'B', 'C', 'D', 'Int']
+TYPES = ['Any', 'A', 'B', 'C', 'D', 'Int', 'BC']
 VALS = ['A', 'B', 'C', 'D', 'Int', 'Null']
 
 
@@ -77,6 +77,11 @@ CURATED = [
     [L([O('nkstar', [], star='Any', nokw=True)])],
     # keyword names differ between overloads
     [L([O('xy', [P('x', 'A'), P('y', 'A')]), O('yx', [P('y', 'A'), P('x', 'A')])])],
+    # a parameter declared with a union of classes (like the library's Number): less specific than its members, more than their ancestors
+    [L([O('u', [P('x', 'BC')]), O('a', [P('x', 'A')])])],
+    [L([O('u', [P('x', 'BC')]), O('b', [P('x', 'B')])])],
+    [L([O('u', [P('x', 'BC')]), O('any', [P('x', 'Any')]), O('d', [P('x', 'D')])])],
+    [L([O('u', [P('x', 'BC'), P('y', 'Int')]), O('c', [P('x', 'C'), P('y', 'Any')])])],
     # indistinguishable overloads are ambiguous however exactly they fit the arguments; an exact fit does not hide the others
     [L([O('i1', [P('x', 'B')]), O('i2', [P('x', 'B')])])],
     [L([O('i1', [P('x', 'D'), P('y', 'Int')]), O('i2', [P('x', 'D'), P('y', 'Int')]), O('w', [P('x', 'A'), P('y', 'Any')])])],
@@ -189,7 +194,7 @@ class Lattice(object):
 
         class D(B, C):
             pass
-        self.cls = {'A': A, 'B': B, 'C': C, 'D': D, 'Int': int, 'Any': object}
+        self.cls = {'A': A, 'B': B, 'C': C, 'D': D, 'Int': int, 'Any': object, 'BC': (B, C)}
         self.val = {'A': A(), 'B': B(), 'C': C(), 'D': D(), 'Int': 7, 'Null': None}
 
 
@@ -241,7 +246,7 @@ def build_fd(o, ran):
     if key not in _PAYLOADS:
         env = {'_TAG_OF': _TAG_OF, '_RAN': []}
         for t in TYPES:
-            env['_DEF_' + t] = lat.val[t if t != 'Any' else 'A']
+            env['_DEF_' + t] = lat.val['A' if t == 'Any' else 'B' if t == 'BC' else t]
         src = 'def payload(%s):\n    _t = _TAG_OF[id(fd__)]\n    _t[1].append(_t[0])\n    return _t[0]\n' % key
         exec(src, env)
         _PAYLOADS[key] = env['payload']
